@@ -26,7 +26,7 @@ class C07(Check):
             "distinct_nontrivial counts distinct states reached after a refinement step")
     excluded_configs = ["dim 1 (coarsen_grid indexes a second dimension)", "noInitialSplitting=True (asserted unsupported)",
                         "coarsening version 3 (outside the documented versions 0-2)"]
-    expected_probes = ["split", "extend_only_step", "single_area_step", "refine_everything_step", "container_restart"]
+    expected_probes = ["split", "extend_only_step", "single_area_step", "refine_everything_step", "container_restart", "hands_off_history"]
 
     def setup(self):
         import numpy  # noqa
@@ -41,13 +41,48 @@ class C07(Check):
         # (a new driver call that is handed the returned container) - the areas must stay a valid tiling with valid local
         # combinations across that seam
         cfg["restart_limit"] = r.choice([0, 10, 25, 50, 90]) if r.random() < 0.2 else None
+        h = stream(rk, "hands_off")
+        if cfg["boundary"] and h.random() < 0.15:
+            # hands-off histories: nothing inspects the structure while the run proceeds (inspection itself calls coarsen_grid and
+            # thereby registers level vectors in the leaves). The run monitors itself instead: it is given evaluation points - the
+            # corners of the initial areas, which stay corners of whichever leaf owns them and hence grid points of every component
+            # grid computed there - and the interpolation error the library reports at them must vanish at every evaluation
+            cfg["hands_off"] = True
+            cfg["evals"] = h.randint(3, 8)
+            cfg["restart_limit"] = None
         return {"config": cfg, "ops": []}
 
     def simplify(self, s):
         return ES.simplify_cfg(s)
 
+    def execute_hands_off(self, sched, ctx):
+        import itertools
+        import numpy as np
+        cfg = sched["config"]
+        sim = ES.ExtendSplitSim(cfg, sched["rk"], ctx, [])
+        sim.build()
+        a, b = cfg["a"], cfg["b"]
+        P = [tuple(float(x) for x in p) for p in itertools.product(*[(a[d], 0.5 * (a[d] + b[d]), b[d]) for d in range(cfg["dim"])])]
+        ctx.probe("hands_off_history")
+        try:
+            sim.perform(tol=-1.0, max_evaluations=None, stop_after=cfg["evals"], evaluation_points=P)
+        except DS.StopRun:
+            pass
+        errs = [float(x) for x in getattr(sim.sa, "interpolation_error_arrayMax", [])]
+        scale = 1.0 + max(float(np.max(np.abs(sim.f.peek(p)))) for p in P)
+        sig = {"oracle": "monitored_interpolation_error_vanishes", "strategy": "extend_split", "version": cfg["version"], "automatic": bool(cfg.get("automatic")),
+               "single_dim": bool(cfg.get("single_dim"))}
+        for i, e in enumerate(errs):
+            if not e <= 1e-9 * scale:
+                ctx.violate("monitored_interpolation_error_vanishes", sig, "evaluation %d: the interpolation error the run reports at the corners of the initial areas (grid points of "
+                            "every component grid of their leaves) is %.3e; history of reported errors %s" % (i, e, ["%.2e" % x for x in errs]))
+        ctx.ok("monitored_interpolation_error_vanishes", len(errs))
+        ctx.state(sim.structure_key())
+
     def execute(self, sched, ctx):
         cfg = sched["config"]
+        if cfg.get("hands_off"):
+            return self.execute_hands_off(sched, ctx)
         sim = ES.ExtendSplitSim(cfg, sched["rk"], ctx, [ES.AreaMonitor()])
         sim.build()
         try:
